@@ -622,6 +622,10 @@ func (e *Engine) assumeCond(st *State, cond ssa.Value, outcome bool) {
 			return
 		}
 	case *ssa.BinOp:
+		if isFloat(c.X.Type()) {
+			e.assumeFloatCond(st, c, outcome)
+			return
+		}
 		if isInt(c.X.Type()) || isBool(c.X.Type()) {
 			x, y := e.expr(st, c.X), e.expr(st, c.Y)
 			op := c.Op
@@ -1250,5 +1254,60 @@ func (e *Engine) checkErrDiscipline(fr *frame, st *State, ret *ssa.Return) {
 			in = ex.Tuple.(*ssa.Call)
 		}
 		e.oblige(fr, "E-ERR", in, "error-observed", e.isNil(st, v), "the function returns a nil error although the error of this call may be non-nil (dropped error)")
+	}
+}
+
+func isFloat(t types.Type) bool {
+	b, ok := t.Underlying().(*types.Basic)
+	return ok && b.Info()&types.IsFloat != 0
+}
+
+// assumeFloatCond records an upper bound of a float value compared with a constant.
+func (e *Engine) assumeFloatCond(st *State, c *ssa.BinOp, outcome bool) {
+	k, ok := c.Y.(*ssa.Const)
+	x := c.X
+	op := c.Op
+	if !ok {
+		k, ok = c.X.(*ssa.Const)
+		x = c.Y
+		// swap sides
+		switch op {
+		case token.LSS:
+			op = token.GTR
+		case token.LEQ:
+			op = token.GEQ
+		case token.GTR:
+			op = token.LSS
+		case token.GEQ:
+			op = token.LEQ
+		}
+		if !ok {
+			return
+		}
+	}
+	if k.Value == nil {
+		return
+	}
+	kv, _ := constant.Float64Val(constant.ToFloat(k.Value))
+	if !outcome {
+		op = negateOp(op)
+	}
+	var b FBound
+	switch op {
+	case token.LSS:
+		b = FBound{kv, true}
+	case token.LEQ:
+		b = FBound{kv, false}
+	default:
+		return
+	}
+	// note: a NaN fails every ordered comparison; `!(x >= K)` therefore does not imply x < K for a NaN.
+	// The bound is recorded for non-NaN values; conversions of NaN to integers are outside the model.
+	if st.fub == nil {
+		st.fub = map[string]FBound{}
+	}
+	id := e.vid(x)
+	if old, ok := st.fub[id]; !ok || b.Val < old.Val || b.Val == old.Val && b.Strict {
+		st.fub[id] = b
 	}
 }
